@@ -138,7 +138,7 @@ def applyBinSpec (op : BinOp) (l r : Int) : Except Err Int :=
   | .mul => .ok (l * r)
   | .div => cDivSpec l r
   | .mod => do let q ← cDivSpec l r; pure (l - q * r)
-  | .shl => if r < 0 then .error .cdef else .ok (l * 2 ^ r.toNat)
+  | .shl => if r < 0 then .error .cdef else if r > shiftBound then .error .overflow else .ok (l * 2 ^ r.toNat)
   | .shr => if r < 0 then .error .cdef else .ok (l >>> r.toNat)
   | .band => .ok (pyAnd l r)
   | .bor => .ok (pyOr l r)
@@ -148,7 +148,7 @@ theorem applyBin_def (op : BinOp) (l r : Int) : applyBin op l r = applyBinSpec o
   have hc : ConstExprPy.c_div l r = cDivSpec l r := cDiv_def l r
   cases op <;>
     simp (decide := true) only [applyBin, applyBinSpec, ConstExprPy.parse_constant_binop, hc,
-      if_true, if_false, pyShl, pyShr, decide_eq_true_eq]
+      if_true, if_false, pyShlChecked, pyShr, decide_eq_true_eq]
   cases cDivSpec l r <;> rfl
 
 /-- An operator string outside the ten reaches the final `raise FFIError`. -/
